@@ -87,6 +87,15 @@ func CheckBus(b *acmelib.Bus) []string {
 		if ni.ParentBus() != b {
 			addf(&out, "c05-iface-bus-link", "bus %q lists interface %d of node %q whose ParentBus is %s", b.Name(), ni.Number(), ni.Node().Name(), busName(ni.ParentBus()))
 		}
+		listed := false
+		for _, x := range ni.Node().Interfaces() {
+			if x == ni {
+				listed = true
+			}
+		}
+		if !listed {
+			addf(&out, "c05-iface-node-link", "bus %q lists an interface (number %d) of node %q which that node no longer lists", b.Name(), ni.Number(), ni.Node().Name())
+		}
 		out = append(out, CheckNode(ni.Node())...)
 		out = append(out, CheckInterface(ni)...)
 	}
